@@ -209,7 +209,7 @@ def run(tier, replay=None):
     # is registered in them (rule shared with C01)
     c01.run_r1(chk, fns, G, only=('create_expansion', 'siblings_expansion', 'siblings_expansion_with_blockers',
                                   'compute_punctual_expansion', 'insert_edge_as_flag', 'create_local_expansion',
-                                  'insert_graph'), min_count=4)
+                                  'insert_graph'), min_count=3)
     chk.assumptions += ['clang 14 parser', 'class-local call resolution by name', 'for-all loop idiom (DESIGN 3/E2 i)']
     return chk
 
